@@ -300,7 +300,17 @@ impl<'r> Printer<'r> {
                 self.sep("");
                 self.out.push(')');
             }
-            Expr::Skip(_) => panic!("Skip is not printable"),
+            Expr::Skip(v) => {
+                // not pest syntax; only used to show optimizer output to a reader
+                self.out.push_str("<skip-until ");
+                for (i, s) in v.iter().enumerate() {
+                    if i > 0 {
+                        self.out.push_str(" | ");
+                    }
+                    self.string(s);
+                }
+                self.out.push('>');
+            }
         }
     }
 
@@ -414,4 +424,9 @@ pub fn expr_to_string(e: &Expr) -> String {
     let mut p = Printer::canonical();
     p.expr(e, 0);
     p.out
+}
+
+/// Printing that also renders `Expr::Skip` (which has no concrete syntax).
+pub fn rules_to_string_lossy(rules: &[Rule]) -> String {
+    Printer::canonical().rules(rules)
 }
